@@ -43,4 +43,5 @@ package line
 //@   aftercall PopAnyway use enqueued_by_addCallCtx(result)
 //@   modifies q.Q.closed, list.List.lmem, list.List.lcnt, list.Element.lrk, list.Element.Value, region($alloc)
 //@   loop 1
+//@     invariant #serial spawned() == old(spawned())
 //@     invariant lwfl(c)
